@@ -52,10 +52,20 @@ fn main() {
                 std::process::exit(2);
             }
         };
-        let case = doc.get("case").cloned().unwrap_or(serde_json::Value::Null);
+        // a replay file holds one "case" or a list "cases"
+        let cases: Vec<serde_json::Value> = match doc.get("cases").and_then(|c| c.as_array()) {
+            Some(list) => list.clone(),
+            None => vec![doc.get("case").cloned().unwrap_or(serde_json::Value::Null)],
+        };
         let mut report = |s: String| eprintln!("{}", s);
-        let code = with_property!(id.as_str(), replay_case, &case, root, &mut report).unwrap_or(2);
-        std::process::exit(code);
+        let mut worst = 0;
+        for case in &cases {
+            let code = with_property!(id.as_str(), replay_case, case, root, &mut report).unwrap_or(2);
+            if code == 1 || (code == 2 && worst == 0) {
+                worst = code;
+            }
+        }
+        std::process::exit(worst);
     }
 
     let mut out = take_stdout();
